@@ -10,7 +10,7 @@ func init() {
 	register(&Rule{ID: "R7.ct-join", Props: []string{"C07", "C03", "C15", "C18"}, Floor: 3,
 		Text: "the lock table (the Command() switch of handleInputCommand whose arms lock Server.mu) and the dispatch table (the Command() switch of command) are found and every arm is interpretable: one acquire matched by its deferred release; the re-dispatch of 'config'/'script' is the only self call of command",
 		Run:  ruleCTJoin})
-	register(&Rule{ID: "R7.lock-write", Props: []string{"C07"}, Floor: 40,
+	register(&Rule{ID: "R7.lock-write", Props: []string{"C07", "C10"}, Floor: 40,
 		Text: "every write of a Server.mu-guarded location (cols, collections, hook registries, group indexes, aof, aofbuf, aofsz, shrinking, shrinklog, qidx) executes with Server.mu held exclusively on every path from every root (go statements, Serve, escaping function values) through the restricted call model with the command-table join",
 		Run:  func(c *Ctx) { ruleLockAccess(c, true) }})
 	register(&Rule{ID: "R7.lock-read", Props: []string{"C07"}, Floor: 60,
